@@ -96,6 +96,29 @@ def run(ck):
             _validate(ck, sw, "cover_b", sub, "a third of the transition cover, byte-wise reads, other frame variants",
                       "split=byte,variant=3", ck.seed)
 
+    def fragments():
+        # a fragmented message with a Close or a Ping between its fragments (all of it arriving at once), read
+        # through the frame and message APIs: the peer's Close is answered and ends the reads also in mid-message
+        # (the frame-level and the message-level APIs are not mixed inside one message)
+        for lvl, apis in (("frame", '{"NextFrame", "AsyncNextFrame", "Write", "Flush"}'),
+                          ("message", '{"NextMessage", "AsyncNextMessage", "Write", "Flush"}')):
+            consts = {"MaxPeer": 2, "MaxCalls": 3, "BUG_SecondClose": "FALSE",
+                      "PeerKinds": '{"fragclosecont", "fragpingcont", "data", "eof"}', "CallApis": apis}
+            cfg = vlib.cfg_with(sw, "WsSessionImpl_mc.cfg", consts, outname="frag_%s.cfg" % lvl)
+            r = vlib.tlc(sw, "WsSessionImpl", cfg, workers=1, timeout=1500)
+            if not r.ok:
+                raise vlib.Inconclusive("WsSessionImpl fragments cover: %s\n%s" % (r.violated or r.error, r.tail()))
+            ck.add_tlc("WsSessionImpl transition cover, fragmented messages with a control frame in between, %s APIs" % lvl, r, consts)
+            for line in r.lines('<<"MODELBAD"'):
+                model_findings.add(line.split('"')[3])
+            beh = os.path.join(ck.work, "cover_frag_%s.jsonl" % lvl)
+            n = vlib.edges_to_file(r, beh)
+            os.remove(r.outpath)
+            if n == 0:
+                raise vlib.Inconclusive("fragments cover produced no behaviours")
+            _validate(ck, sw, "cover_frag_" + lvl, beh,
+                      "transition cover 2x3, fragmented messages with a control frame in between, %s APIs" % lvl, "split=frame", ck.seed)
+
     def deferred(writers=False):
         # the asynchronous calls at callback granularity: completions of transport reads and writes are
         # steps of the schedule, so peer events and further calls land between the start of an
@@ -159,7 +182,7 @@ def run(ck):
 
     with ThreadPoolExecutor(max_workers=6) as ex:
         # quick: the cover run is the exhaustive run (3x3); thorough adds the exhaustive 5x4 run
-        futs = [ex.submit(cover), ex.submit(deferred), ex.submit(deferred, True), ex.submit(bugdemo)] + ([] if quick else [ex.submit(count)]) + \
+        futs = [ex.submit(cover), ex.submit(fragments), ex.submit(deferred), ex.submit(deferred, True), ex.submit(bugdemo)] + ([] if quick else [ex.submit(count)]) + \
                [ex.submit(sim, k) for k in range(2 if quick else 3)]
         for f in futs:
             f.result()
